@@ -81,7 +81,11 @@ impl<'s, 'r, R: Read, S: Borrow<Schema>> BlockDeserializer<'s, 'r, R, S> {
             // If the block size is zero the array/map is finished
             Ok(None)
         } else {
-            Ok(Some(remaining.unsigned_abs()))
+            // Items can be zero bytes wide, so the input does not bound the count: apply the
+            // allocation limit to it, like the generic decoder does.
+            let count = remaining.unsigned_abs();
+            crate::util::safe_len(usize::try_from(count).unwrap_or(usize::MAX))?;
+            Ok(Some(count))
         }
     }
 }
